@@ -1,6 +1,7 @@
 (* C06 — A layer tarball faithfully and canonically serialises the built
    filesystem.  Property theorems only; proofs are in Proofs/TarProofs.v. *)
 From Apko Require Import Base.Prelude Model.Tar Spec.TarSpec Proofs.TarProofs Proofs.TarRoundtrip Proofs.TarOrder Proofs.TarLinks.
+From Apko Require Import Generated.C06Tar Model.TarBytes Spec.TarBytesSpec Proofs.TarBytesBlock Proofs.TarBytesProofs.
 From Coq Require Import Sorting.Sorted.
 Open Scope string_scope. Open Scope list_scope.
 
@@ -146,3 +147,113 @@ Theorem c06_attrs_refuted :
   (exists f, wf_names_forest f = true /\ ~ Faithful [] [] f (emitted env_allhdr f) /\ wf_forest f = false).
 Proof. exact attrs_refuted. Qed.
 Print Assumptions c06_attrs_refuted.
+
+(* ======================================================================
+   The byte-level codec (Model/TarBytes.v): what archive/tar's Writer emits for
+   the headers walkFS/writeTar hand it, and what archive/tar's Reader makes of
+   those bytes.  [write_archive] is the writer with the two facts goextract
+   reads from pkg/build/tarball.go: header.Format as walkFS leaves it
+   (Generated.C06Tar.c06_header_format = FormatUnknown: ModTime rounded, USTAR
+   else PAX else GNU) and writeTar's final tw.Close() (c06_writer_closes).
+   ====================================================================== *)
+
+(* c06_bytes_roundtrip — for EVERY list of members inside the envelope
+   [member_okb] (Spec/TarBytesSpec.v: one of the seven standard typeflags, no
+   trailing slash on a non-directory, no NUL in name / link target / user /
+   group name, mode and device numbers below 8^7, uid / gid / size / mtime any
+   int64 (size >= 0), whole-second mtime other than Go's zero time, PAX records
+   of the caller with distinct non-empty keys without '=' / NUL that are not
+   archive/tar's own, at most 1 MiB of PAX data, body length = Size for a
+   regular file and no body for header-only types) the writer succeeds and the
+   reader returns exactly the members, each header completed with the PAX
+   records that were needed to carry it ([read_view]): names of any length and
+   any bytes, ids beyond 2^21, sizes beyond 8 GiB, negative and large times,
+   user / group names beyond 32 bytes, extended attributes with any bytes. *)
+Theorem c06_bytes_roundtrip : forall ms, forallb member_okb ms = true ->
+  exists bs, write_archive ms = Ok bs /\ read_archive bs = Ok (map read_view ms).
+Proof. exact bytes_roundtrip. Qed.
+Print Assumptions c06_bytes_roundtrip.
+
+(* what [read_view] is: every field of the header and the body as they were;
+   the PAX records of the caller are exactly the records of the view that are
+   not archive/tar's own *)
+Theorem c06_bytes_view : forall h b, hdr_okb h = true ->
+  let h' := fst (read_view (h, b)) in
+  h_type h' = h_type h /\ h_name h' = h_name h /\ h_link h' = h_link h /\ h_mode h' = h_mode h /\ h_uid h' = h_uid h /\
+  h_gid h' = h_gid h /\ h_size h' = h_size h /\ h_mtime h' = h_mtime h /\ h_mnsec h' = h_mnsec h /\
+  h_uname h' = h_uname h /\ h_gname h' = h_gname h /\ h_devmaj h' = h_devmaj h /\ h_devmin h' = h_devmin h /\
+  user_records (h_pax h') = h_pax h /\ snd (read_view (h, b)) = b.
+Proof. exact view_fields. Qed.
+Print Assumptions c06_bytes_view.
+
+Example c06_bytes_roundtrip_example : forallb member_okb ex_members = true /\
+  match write_archive ex_members with
+  | Ok bs => List.length bs = 4608%nat /\ read_archive bs = Ok (map read_view ex_members)
+  | _ => False
+  end.
+Proof. exact ex_members_ok. Qed.
+
+(* the pieces: an octal field (w bytes: w-1 digits and a NUL) read back, for
+   every field width of a header and every value that fits; a header block
+   assembled from fields of the right widths is accepted by the reader
+   (checksum, magic) and yields those fields; a PAX record "<len> k=v\n" whose
+   length counts its own digits is read back and leaves the rest *)
+Theorem c06_bytes_octal : forall w x, (2 <= w <= 21)%nat -> fits_octal w x = true ->
+  parse_numeric (fst (fmt_octal w x)) = Ok x /\ List.length (fst (fmt_octal w x)) = w.
+Proof. exact octal_roundtrip. Qed.
+Print Assumptions c06_bytes_octal.
+
+Theorem c06_bytes_header_block : forall f, fields_ok f ->
+  parse_header (block_of f) = parsed_fields f /\ List.length (block_of f) = 512%nat /\ all_zero (block_of f) = false.
+Proof. intros f F. split; [apply parse_header_block | split; [apply block_length | apply block_not_zero]]; assumption. Qed.
+Print Assumptions c06_bytes_header_block.
+
+Theorem c06_bytes_pax_record : forall k v rest, valid_pax_record k v = true ->
+  (N.of_nat (List.length (fmt_pax_record k v)) < 9223372036854775808)%N ->
+  parse_pax_record (fmt_pax_record k v ++ rest) = Ok (k, v, rest) /\
+  exists n, fmt_pax_record k v = dec_N (N.of_nat n) ++ " "%char :: k ++ "="%char :: v ++ [Nb 10] /\
+            n = List.length (fmt_pax_record k v).
+Proof. exact pax_record_roundtrip. Qed.
+Print Assumptions c06_bytes_pax_record.
+
+(* c06_bytes_blocks — the stream is a whole number of 512-byte blocks and ends
+   with two zero blocks (writeTar closes the writer) *)
+Theorem c06_bytes_blocks : forall ms bs, forallb member_okb ms = true -> write_archive ms = Ok bs ->
+  (List.length bs mod 512 = 0)%nat /\ exists pre, bs = pre ++ zeros 1024 /\ (List.length pre mod 512 = 0)%nat.
+Proof. exact bytes_blocks. Qed.
+Print Assumptions c06_bytes_blocks.
+
+(* c06_bytes_injective — canonicity: inside the envelope two different member
+   lists never give the same bytes *)
+Theorem c06_bytes_injective : forall a b bs, forallb member_okb a = true -> forallb member_okb b = true ->
+  write_archive a = Ok bs -> write_archive b = Ok bs -> a = b.
+Proof. exact bytes_injective. Qed.
+Print Assumptions c06_bytes_injective.
+
+(* the PAX key prefix of pkg/build/tarball.go (Generated.C06Tar.c06_xattr_prefix,
+   used by hdr_of_entry) is the one under which archive/tar's reader files
+   extended attributes: for every entry of the walk, the attributes read from
+   the records of its header are the entry's attributes *)
+Theorem c06_bytes_xattr_prefix : forall e, xattrs_of_pax (h_pax (hdr_of_entry e)) = e_xattrs e.
+Proof. exact xattr_prefix_roundtrip. Qed.
+Print Assumptions c06_bytes_xattr_prefix.
+
+(* the typeflags for which walkFS copies extended attributes are those for
+   which the walk of Model/Tar.v attaches them (regular files, directories) *)
+Example c06_xattr_typeflags_modelled : c06_xattr_typeflags = [bN T_REG; bN T_DIR].
+Proof. reflexivity. Qed.
+
+(* c06_bytes_envelope_boundary — outside the envelope:
+   (1) a modification time equal to Go's zero time.Time (0001-01-01T00:00:00Z)
+       is written as the Unix epoch: the reader does not return the member;
+   (2) an extended attribute whose name contains '=' is refused by the writer
+       (PAX keys cannot contain '='): no stream at all;
+   (3) a device number of 8^7 or more fits neither USTAR nor PAX: the writer
+       falls back to the GNU format, which the model writes and reads back (the
+       example), but which the round-trip theorem does not cover. *)
+Theorem c06_bytes_envelope_boundary :
+  (let m := (ex_hdr "f" 0 zero_time_sec [], lit "ab") in
+   exists bs ms, write_archive [m] = Ok bs /\ read_archive bs = Ok ms /\ ms <> [read_view m] /\ member_okb m = false) /\
+  write_archive [(ex_hdr "f" 0 0 [(lit "SCHILY.xattr.user.a=b", lit "c")], lit "ab")] = Err.
+Proof. split; [exact zero_time_not_roundtrip | exact equals_in_key_refused]. Qed.
+Print Assumptions c06_bytes_envelope_boundary.
